@@ -154,6 +154,16 @@ def _arc_cow_order(F, A, b, prs, rep, tag, key=None, need_ref=True):
         if i_gate is None:
             ok_gate, why = False, balance.path_report(F, b, p, "no uniqueness test on this path before mutable access is handed out")
             continue
+        if i_ref is None and i_clone is None and i_helper is None:
+            # in-place path through a checked conversion that hands out the access itself (`match try_as_unique(this) { Ok(u) =>
+            # u, .. }`): the borrow is the verdict of the gate function (a derived gate, judged by C03 R-GATE)
+            from . import c03
+
+            Gd = F.__dict__.get("_gates_cache")
+            if Gd is None:
+                Gd = F.__dict__["_gates_cache"] = c03.Gates(F)
+            if ev[i_gate]["kind"] == "CALL" and ev[i_gate]["detail"].get("callee") in c03.derived_gates(F, Gd, A.E):
+                i_ref = i_gate + 1
         if i_clone is None and i_helper is not None:
             # the slow path lives in a helper (clone, fresh block, release inside one call): the borrow must come after it
             if i_ref is None or not (i_gate < i_helper < i_ref):
@@ -263,6 +273,41 @@ def _reads_and_parks(F, A, key):
     return True
 
 
+def _cow_through_lending_helper(F, A, b, p):
+    """`self.with_arc_mut(|arc| Arc::make_mut(arc) ..)`: the read-out, the parking, the call of the callback and the write-back
+    guard live in a private helper that lends `&mut Arc` to its callable parameter (every returning path of the helper: read <
+    park < callback < write-back), and the closure handed to it by this function applies Arc's copy-on-write to what it is lent."""
+    for e in p.events:
+        d = e["detail"] if isinstance(e["detail"], dict) else {}
+        hk = d.get("callee")
+        hb = F.body(hk) if hk else None
+        if e["kind"] != "CALL" or d.get("outcome") is not None or hb is None or balance.is_api(F, hb) or hk not in A.paths or hk in A.errors:
+            continue
+        rets = [q for q in A.paths[hk] if q.exit == "ret"]
+        if not rets:
+            continue
+        good = True
+        for q in rets:
+            ev = q.events
+            i_read = idx_of(ev, lambda x: x["kind"] == "MAKE" and x["detail"].get("via", "").startswith("core::ptr::read"))
+            i_park = idx_of(ev, lambda x: x["kind"] == "HIDE" and "ManuallyDrop" in str(x["detail"].get("via")))
+            i_cb = idx_of(ev, lambda x: x["kind"] == "PCALL")
+            i_wb = idx_of(ev, lambda x: x["kind"] == "DROP" and (balance.guard_writes_back(F, A, x["detail"].get("adt")) or any(balance.guard_writes_back(F, A, F.ty(t2).get("path")) for t2 in ([x["detail"].get("ty_idx")] if isinstance(x["detail"].get("ty_idx"), int) else []))))
+            if None in (i_read, i_park, i_cb, i_wb) or not (i_read < i_park < i_cb < i_wb):
+                good = False
+        if not good:
+            continue
+        for cb in F.body_list:
+            if cb["kind"] == "Closure" and cb.get("owner") == b["key"]:
+                for bl in cb["blocks"]:
+                    t = bl["term"]
+                    if t["k"] == "call":
+                        tb = F.body((t.get("resolved") or {}).get("def") if isinstance(t.get("resolved"), dict) else t.get("callee"))
+                        if tb is not None and tb.get("name") in ("make_mut", "make_unique") and F.handle_name((tb.get("impl") or {}).get("self_ty", -1)) == "Arc":
+                            return True
+    return False
+
+
 def _offset_cow(F, A, b, prs, rep, tag):
     """OffsetArc::make_mut: read the handle out, park it, run Arc's COW on the parked copy, write the (possibly redirected) handle back."""
     key = b["key"]
@@ -282,6 +327,8 @@ def _offset_cow(F, A, b, prs, rep, tag):
             # the read-out and the parking may live in the guard's private constructor (`WriteBack::take_from(self)`)
             i_ctor = idx_of(ev[:i_cow], lambda e: e["kind"] == "CALL" and e["detail"].get("outcome") is None and _reads_and_parks(F, A, e["detail"].get("callee")))
             guarded = i_ctor is not None
+        if not (direct or guarded) and _cow_through_lending_helper(F, A, b, p):
+            guarded = True
         if not (direct or guarded):
             ok, why = False, balance.path_report(F, b, p, "expected: ptr::read of the handle, parking in ManuallyDrop, Arc::make_mut on the parked copy, then the (possibly redirected) handle written back - directly or by a write-back guard")
     if ok and prs:
